@@ -413,6 +413,62 @@ def plugins(item):
     return part
 
 
+_LATE = [0]
+
+
+def late_classes(item):
+    """Classes the user defines *after* CIDs have been loaded in the same process resolve by name like those defined before
+    (a long-running service defines formats as its modules are imported): load a CID with built-ins, define a field format and
+    a check, load a CID naming them, validate through them; then once more with further names (nothing resolved earlier is final)."""
+    m = harness.modules()
+    fields, checks, errors = m["fields"], m["checks"], m["errors"]
+    import cutplace
+
+    part = Part()
+    for preset in item:
+        for round_number in range(3):
+            _LATE[0] += 1
+            stem = "Late%dx%d" % (os.getpid(), _LATE[0])
+            case = {"preset": preset, "round": round_number, "class": stem}
+            part.evaluations += 1
+            part.transitions += 1
+            head = [["D", "Format", preset]] + ([["D", "Line delimiter", "LF"]])
+            width = "2" if preset == "Fixed" else ""
+            # any CID loaded before the classes exist
+            harness.make_cid(head + [["F", "a", "", "", width, "Integer", "0...99"], ["C", "u", "IsUnique", "a"]])
+            seen = []
+
+            def validated_value(self, value, seen=seen):
+                seen.append(value)
+                if value == "no":
+                    raise errors.FieldValueError("refused")
+                return value
+
+            def check_row(self, field_name_to_value_map, location, seen=seen):
+                seen.append(sorted(field_name_to_value_map))
+
+            field_class = type(stem + "FieldFormat", (fields.AbstractFieldFormat,), {
+                "__init__": lambda self, field_name, is_allowed_to_be_empty, length, rule, data_format: fields.AbstractFieldFormat.__init__(self, field_name, is_allowed_to_be_empty, length, rule, data_format, empty_value=""),
+                "validated_value": validated_value})
+            check_class = type(stem + "Check", (checks.AbstractCheck,), {"check_row": check_row})
+            try:
+                cid = harness.make_cid(head + [["F", "a", "", "", width, stem], ["C", "c", stem, ""]])
+            except errors.InterfaceError as error:
+                part.fail("late-classes|%s|not-resolved-by-name" % preset.lower(), case, "CID naming classes defined after an earlier CID was loaded is accepted", str(error)[:300])
+                continue
+            part.validated += 1
+            part.nontrivial += 1
+            outcome = []
+            for row in cutplace.rows(cid, io.StringIO("ok\nno\nab\n", newline=""), on_error="yield"):
+                outcome.append("rejected" if isinstance(row, Exception) else list(row))
+            expected = [["ok"], "rejected", ["ab"]]
+            part.outcome("late:%s" % ("as-expected" if outcome == expected else "differs"))
+            if outcome != expected or type(cid.field_formats[0]) is not field_class or seen != ["ok", ["a"], "no", "ab", ["a"]]:
+                part.fail("late-classes|%s|not-driven-like-classes-defined-up-front" % preset.lower(), case, [expected, ["ok", ["a"], "no", "ab", ["a"]]], [outcome, seen])
+            del field_class, check_class
+    return part
+
+
 def run(ctx):
     quick = ctx.tier == "quick"
     items = [(config, 4 if quick else 6, 1 if quick else 2) for config in configs(ctx.tier)]
@@ -431,6 +487,7 @@ def run(ctx):
     for folder in ("plug[1]", "plug ins", "plug*in?", "[plugins]"):
         plugin_cases.append({"config": dict(config, preset="delimited"), "table": tables[1], "mode": "yield", "folder": folder})
     ctx.pmap(MOD, "plugins", [[c] for c in plugin_cases], label="C20 plugins")
+    ctx.pmap(MOD, "late_classes", [["Delimited"], ["Fixed"]], label="C20 classes defined after a CID was loaded")
     ctx.bound = {"configurations": len(items), "fields": "1..3 recording fields (empty flag, length / width, allowed characters varied)", "checks": "0..3 recording checks (accepting, vetoing a row, failing at the end)",
                  "runs": "reader x 3 modes x limit {none,0..3}, reader with explicit close inside with, validate, abandoned reader, writer with double close; all pairs of runs on one CID over short tables",
                  "tables": "BFS to depth %d with merging and every table up to %d rows enumerated" % (4 if quick else 6, 1 if quick else 2), "header": "0..2",
